@@ -5,6 +5,16 @@ import TinkVerif.Props.GlueTie.Kwp
 import TinkVerif.Props.GlueTie.Cmac
 import TinkVerif.Props.GlueTie.Hpke
 import TinkVerif.Props.GlueTie.PrefixKeys
+import TinkVerif.Props.GlueTie.CmacFull
+import TinkVerif.Props.GlueTie.Ctr
+import TinkVerif.Props.GlueTie.Etm
+import TinkVerif.Props.GlueTie.MacWrap
+import TinkVerif.Props.GlueTie.Prf
+import TinkVerif.Props.GlueTie.Siv
+import TinkVerif.Props.GlueTie.KwpFull
+import TinkVerif.Props.GlueTie.Unreader
+import TinkVerif.Props.GlueTie.StreamSeg
+import TinkVerif.Props.GlueTie.Rand
 /-
   GlueTie: the small byte-level glue functions of tink-go (output prefixes, segment nonces, length blocks,
   counter / tag masks, AIV, CMAC doubling and padding, HPKE labels) are REGENERATED from /repo's current source
@@ -24,6 +34,19 @@ import TinkVerif.Props.GlueTie.PrefixKeys
     Props.GlueTie.Cmac              Gen/GlueCmac     (C04 C08 C15)            Model/Cmac `mulByX`, `pad16`
     Props.GlueTie.Hpke              Gen/GlueHpke     (C06)                    Model/Hpke `kemSuiteID`, `hpkeSuiteID`, `labelIKM`, `labelInfo`
     Props.GlueTie.PrefixKeys        Gen/GluePrefixKeys (C05)                  Model/Framing `outputPrefix` for the 20 per-key-type helpers
+
+  Whole-function ties (round 3b; every statement of the Go function is part of the regenerated definition, loops included;
+  each module lists its own theorems in its AxiomAudit section):
+    Props.GlueTie.CmacFull          Gen/GlueCmac     (C04 C08 C15)            Model/Cmac `compute` (= RFC 4493 `spec`), `subkeys`, `xorEndAndCompute`
+    Props.GlueTie.Ctr               Gen/GlueCtr      (C01 C02)                internal/aead AESCTR newCipher / Encrypt / Decrypt = iv ‖ CTR(padIV iv, ·)
+    Props.GlueTie.Etm               Gen/GlueEtm      (C01 C02)                Model/Aead `EtM.encryptWith`, `EtM.decrypt`; aead/subtle EncryptThenAuthenticate
+    Props.GlueTie.MacWrap           Gen/GlueMacWrap  (C04)                    Model/Mac `FullMac.compute/verify`, `legacyMsg`, `validCmacParams`
+    Props.GlueTie.Siv               Gen/GlueSiv      (C08)                    Model/Siv `s2v`, `clearBits`, `encryptRaw`, `decryptRaw`, `encrypt`, `decrypt`
+    Props.GlueTie.KwpFull           Gen/GlueKwp      (C08)                    Model/Kwp `wrap`, `unwrap`, `Winv` (whole Wrap / invertW / Unwrap, all round loops)
+    Props.GlueTie.Unreader          Gen/GlueUnreader (C05 C07 C14)            record / replay state machine of streamingaead `unreader` (model in the tie file)
+    Props.GlueTie.StreamSeg         Gen/GlueStreamSeg (C07)                   Model/Stream `write`, `close`, `read` (whole Writer.Write / Close, Reader.Read)
+    Props.GlueTie.Rand              Gen/GlueRand     (C20)                    Model/Rand `seg`, `wordAt`: MustRand, GetRandomBytes/Uint32, NewBytesFromRand
+    Props.GlueTie.Prf               Gen/GluePrf      (C15)                    prf/subtle AESCMACPRF truncation and guards
 
   This file only collects them (and repeats the axiom audit for every tie theorem).
 -/
